@@ -423,6 +423,7 @@ Property make() {
   p.id = "C19"; p.level = "exploration"; p.design_ref = "DESIGN.md §7 C19";
   p.rule = "plan = 1-3 variables (5 kinds; outputVelocity/TotalForce/AppliedForce and runAve with length 2-6 and stride 1-3 drawn per variable), 1-3 biases of 8 templates, colvarsTrajFrequency 1-5, 40-70 steps in 1-4 run segments "
            "with a bias defined or deleted, or the instance stopped and restarted under a new output prefix, between segments; non-trivial = at least one trajectory line checked; distinct = hash of (variables' flags, biases, segmentation, frequency)";
+  p.rule += " Later additions: staged moving restraint in the centre reference; 35% of the correlation functions are of the velocity type.";
   p.assumptions = {"the line of a step that is evaluated twice (first step of a later run) is due twice, once per run; its velocity column is not checked",
                    "energies of biases whose configuration does not ask for outputEnergy are accepted as optional columns",
                    "centre schedule and work integral are checked for the continuous moving harmonic restraint on a non-periodic variable; running averages for non-periodic variables; velocity and P2 correlation functions are not checked"};
